@@ -56,7 +56,8 @@ RULE = ("stream (a), ~20%: random operation sequences on the real MatchList / Pa
         "mod 16, masked literals of 15..66 bytes with one-byte near-misses, regexps with a look-around assertion (^ $ \\b \\B \\b{start} \\b{end}) "
         "directly before / after / inside the literal run that becomes the atom x {ascii, wide, ascii wide, nocase, fullword, nocase wide} over "
         "buffers with word / non-word / underscore neighbours and instances at both buffer edges, hex patterns with 2-3 consecutive jumps of every "
-        "kind ([n], [a-b], [a-], [-]) and gaps just below / at / above every bound of the coalesced jump, and one-bit perturbations: for a text pattern of each modifier family "
+        "kind ([n], [a-b], [a-], [-]) and gaps just below / at / above every bound of the coalesced jump, regexps of the masked-literal shape (literals, `.`, classes that are nibble masks) x {ascii, wide, ascii wide, nocase, fullword, "
+        "nocase ascii wide}, and one-bit perturbations: for a text pattern of each modifier family "
         "(plain, nocase, nocase wide, fullword, xor, base64, wide) or a flat hex pattern of 5..12 bytes over letters, digits, punctuation and control "
         "bytes, buffers made of the genuine instance with bit 5, bit 7 and a random bit of every byte flipped in turn, inside and outside the atom). "
         "stream (e), ~12%: chains -- hex patterns and /s regexps (uniformly greedy or lazy; also nocase, wide, ascii wide, fullword) of 2..5 pieces, "
@@ -71,6 +72,9 @@ RULE = ("stream (a), ~20%: random operation sequences on the real MatchList / Pa
         "genuine lengths, an atom occurrence inside the occurrence (the atom set covers every alternative). stream (d), ~15%: text patterns (every modifier family) and flat hex "
         "patterns with the real sub-patterns and atoms dumped from the compiled rules: the dump must equal the model of c_literal_pattern, atoms_ok "
         "must hold on the real atoms, and the pipeline model run on them must reproduce the reported list exactly (anchored `$a at N` included). "
+        "Every single-pattern scan case also carries the kind and Wide flag of every sub-pattern the compiler made of the pattern (dump hook): K requires one "
+        "family of sub-patterns per requested form (ascii / wide), none for a form that was not asked for, equally many for both forms, the "
+        "LiteralWithMask shortcut only without nocase and wide, one plain Regexp per form. "
         "Non-trivial: at least one reported match; distinct by (pattern source, buffer).")
 
 
@@ -79,7 +83,7 @@ SYMPTOMS = [(1, "panic-or-bytes"), (2, "unsound"), (4, "order"), (8, "missed"), 
             (512, "hits-not-the-atom-occurrences-in-kernel-order"),
             (1024, "chain:pieces-differ-from-split-model"), (2048, "chain:atoms_ok-false-on-real-atoms"), (4096, "chain:hits-not-the-atom-occurrences-in-kernel-order"),
             (8192, "chain:literal-piece-matches-differ-from-model"), (16384, "chain:regexp-piece-matches-not-the-reference's"), (32768, "chain:bookkeeping-model-differs"),
-            (65536, "chain:events-not-in-an-order-a-kernel-produces"), (131072, "chain:end-of-forward-only-fastvm-piece-not-the-abstract-matchers"), (262144, "byte-gap-reading-of-wide-chain"), (524288, "atoms-do-not-cover-an-occurrence")]
+            (65536, "chain:events-not-in-an-order-a-kernel-produces"), (131072, "chain:end-of-forward-only-fastvm-piece-not-the-abstract-matchers"), (262144, "byte-gap-reading-of-wide-chain"), (524288, "atoms-do-not-cover-an-occurrence"), (1048576, "sub-patterns-not-one-family-per-requested-form")]
 
 # root-cause hints computed by the harness from the pattern's AST, most specific first (the defects behind
 # them are repaired: a case classified by one of them is a regression and is reported as a VIOLATION)
